@@ -208,7 +208,8 @@ impl Oracle for AuthOracle {
                     let bytes = w.dgrams[dg as usize].bytes.clone();
                     let tail = &bytes[bytes.len().saturating_sub(16)..];
                     if !self.token_is_legit(w, inc, tail) {
-                        w.violate("reset-with-wrong-token", format!("inc{} reported Reset for datagram #{} whose last 16 bytes {} match no reset token its peer issued", inc, dg, crate::util::hex(tail)));
+                        let whose = self.token_owner(w, inc, tail);
+                        w.violate("reset-with-wrong-token", format!("inc{} reported Reset for datagram #{} whose last 16 bytes {} are not the reset token of a connection ID it has used or been told to use next ({})", inc, dg, crate::util::hex(tail), whose));
                         return;
                     }
                     w.probes.hit("stateless_reset_accepted");
@@ -236,6 +237,33 @@ impl Oracle for AuthOracle {
 impl AuthOracle {
     /// is `tail` the stateless reset token the peer endpoint would issue for any CID the peer
     /// connection issued to `inc`?
+    /// which of the peer's connection IDs (if any) the token belongs to — for the report
+    fn token_owner(&self, w: &World, inc: u32, tail: &[u8]) -> String {
+        let peer = w.conns[inc as usize].peer;
+        if peer == NO_INC {
+            return "no peer".into();
+        }
+        let peer_node = w.conns[peer as usize].node;
+        let key = crate::cfgs::reset_key(w.reset_key_seeds.get(&peer_node).copied().unwrap_or(0));
+        let t = w.tap.lock().unwrap();
+        let mut out = Vec::new();
+        let mut max_rpt = 0;
+        for p in t.pkts.iter().filter(|p| p.enc && p.inc == peer) {
+            for f in wire::frames(&p.payload).0 {
+                if let Frame::NewConnectionId { seq, retire_prior_to, cid, .. } = f {
+                    max_rpt = max_rpt.max(retire_prior_to);
+                    let mut sig = vec![0u8; key.signature_len()];
+                    key.sign(&cid, &mut sig);
+                    if sig[..16] == *tail && !out.contains(&seq) {
+                        out.push(seq);
+                    }
+                }
+            }
+        }
+        let used: BTreeSet<Vec<u8>> = t.pkts.iter().filter(|p| p.enc && p.inc == inc).filter_map(|p| wire::plain_header(&p.header).ok().map(|h| h.dcid)).collect();
+        format!("it is the token of the peer's connection ID sequence {:?}; largest retire_prior_to the peer sent {}; destination CIDs used so far: {:?}", out, max_rpt, used.iter().map(|c| crate::util::hex(c)).collect::<Vec<_>>())
+    }
+
     fn token_is_legit(&self, w: &World, inc: u32, tail: &[u8]) -> bool {
         let peer = w.conns[inc as usize].peer;
         if peer == NO_INC {
@@ -254,9 +282,12 @@ impl AuthOracle {
                 }
             }
         }
-        // ... and the one it has been told to use next: the lowest sequence number not covered
-        // by the largest retire_prior_to it has accepted (quinn switches to it at once, possibly
-        // before it has sent anything)
+        // ... and the one it may have switched to already without having sent anything yet: which
+        // one that is depends on the order in which NEW_CONNECTION_ID frames arrived (a server
+        // still on the client's initial CID switches at once to the next one it knows, and a
+        // retransmission lists the frames in another order), so every CID it has received, that
+        // the largest retire_prior_to it accepted does not cover and that it has not itself
+        // retired is a candidate
         let mut known: BTreeMap<u64, Vec<u8>> = BTreeMap::new();
         let mut max_rpt = 0u64;
         for p in t.pkts.iter().filter(|p| !p.enc && p.ok && p.inc == inc) {
@@ -267,7 +298,17 @@ impl AuthOracle {
                 }
             }
         }
-        if let Some((_, cid)) = known.range(max_rpt..).next() {
+        let mut retired: BTreeSet<u64> = BTreeSet::new();
+        for p in t.pkts.iter().filter(|p| p.enc && p.inc == inc) {
+            for f in wire::frames(&p.payload).0 {
+                if let Frame::RetireConnectionId { seq } = f {
+                    retired.insert(seq);
+                }
+            }
+        }
+        // (retiring everything below n means n or something later is in use)
+        let floor = retired.iter().next_back().map_or(0, |m| *m + 1).max(max_rpt);
+        for (_, cid) in known.range(floor..) {
             cids.insert(cid.clone());
         }
         cids.iter().any(|cid| {
